@@ -34,6 +34,23 @@ pub fn drive(bytes: &[u8], opts: &[u8], v: &mut Verdict, item_cap: u32) -> Resul
     for c in 0..clouds.min(6) {
         // bound the harness's own work: items x prototype length
         let item_cap = item_cap.min((3_000_000 / widths[c].max(1)) as u32).max(3);
+        // std's collect() / extend() reserve memory for the lower bound an iterator promises and panic ("capacity
+        // overflow") or abort when that is absurd: a cloud that stores at least one bit per point cannot deliver more than
+        // 8 points per byte of the file, whatever its recordCount says
+        let hint = guard(|| -> Option<(usize, usize, bool)> {
+            let pc = rd.pointclouds().get(c)?.clone();
+            let stores_bits = pc.prototype.iter().any(|r| !matches!(r.data_type, e57::RecordDataType::Integer { min, max } | e57::RecordDataType::ScaledInteger { min, max, .. } if min == max));
+            let raw = rd.pointcloud_raw(&pc).ok()?.size_hint().0;
+            let simple = rd.pointcloud_simple(&pc).ok()?.size_hint().0;
+            Some((raw, simple, stores_bits))
+        })
+        .map_err(|p| format!("size_hint of cloud {c} panicked: {p}"))?;
+        if let Some((raw, simple, true)) = hint {
+            let possible = bytes.len().saturating_mul(8);
+            if raw > possible || simple > possible {
+                return Err(format!("cloud {c}: size_hint() promises at least {} points from a file of {} bytes that stores bits for every point; collect() and extend() reserve memory for that many items (capacity overflow panic / allocation failure abort)", raw.max(simple), bytes.len()));
+            }
+        }
         let op = ReadOp::Raw { cloud: c as u8, take: item_cap };
         let o = guard(|| run_op(&mut rd, &op, &[])).map_err(|p| format!("raw iteration of cloud {c} panicked: {p}"))?;
         if !o.items.is_empty() {
@@ -69,7 +86,7 @@ impl Check for C08 {
          stream count, stream lengths), blob header fields; payload bit flips; truncation to page and non-page multiples, extension. 4 in 5 scripts \
          re-seal every page checksum so the mutation reaches the parsers. Every reading entry point (validate_crc, raw_xml, new, getters, raw \
          iterator, simple iterator under 3 option vectors, every blob) runs under catch_unwind in a worker process built with overflow checks and \
-         debug assertions; any panic, abort or signal is a violation. Non-trivial: the mutant passes E57Reader::new (reaches the section parsers)."
+         debug assertions; any panic, abort or signal is a violation; so is a size_hint() lower bound above 8 points per file byte for a cloud that stores bits per point (std's collect() reserves that many items). Non-trivial: the mutant passes E57Reader::new (reaches the section parsers)."
             .into()
     }
     fn assumptions() -> Vec<String> {
